@@ -45,13 +45,13 @@ func genCase(prop string) func(t *rapid.T) Case {
 			TargetErr: rapid.IntRange(0, 3).Draw(t, "targeterr") != 0,
 			InitCtx:   rapid.IntRange(0, 2).Draw(t, "initctx") != 0,
 		}
-		kinds := []string{"addref", "addref", "addref", "release", "release", "release2", "setctx", "setctx", "finish", "finish", "finish", "finish", "invalidate", "invalidate", "probe"}
+		kinds := []string{"addref", "addref", "addref", "release", "release", "release2", "setctx", "setctx", "finish", "finish", "finish", "finish", "invalidate", "invalidate", "probe", "cancelroot"}
 		cons := []string{"wait", "resolve", "resolverel", "access"}
 		switch prop {
 		case "C09":
 			kinds = append(kinds, "addref", "setctx", "invalidate", "finish")
 		case "C10":
-			kinds = []string{"addref", "release", "setctx", "finish", "finish", "finish", "finish", "invalidate", "invalidate", "consumer", "consumer", "consumer", "consumer", "cancel", "crelease", "crelease", "finishcb", "finishcb", "finishcb", "probe"}
+			kinds = []string{"addref", "release", "setctx", "finish", "finish", "finish", "finish", "invalidate", "invalidate", "consumer", "consumer", "consumer", "consumer", "cancel", "crelease", "crelease", "finishcb", "finishcb", "finishcb", "probe", "cancelroot"}
 		}
 		if prop != "C10" {
 			kinds = append(kinds, "consumer")
@@ -244,6 +244,9 @@ func body(c *sched.Ctl, cs Case, v *ev.Verdict) {
 	twoRestarts := false
 	invalBetweenLookAndReturn, invalWhileHeld := false, false
 	repeatedValue, sentinelError := false, false
+	rootCancelled := false
+	rootDead := map[int]bool{}
+	invOps := map[string]*sched.Op{}
 
 	// ---- resolver ----
 	resolver := func(ctx context.Context, released func()) (int, func(), error) {
@@ -458,6 +461,15 @@ func body(c *sched.Ctl, cs Case, v *ev.Verdict) {
 	quiescent := func(where string) {
 		hm.Lock()
 		defer hm.Unlock()
+		// a released() call that returned without ever taking the mutex section did nothing at all:
+		// apply its transition now so that the missing effects are reported below
+		for label, op := range invOps {
+			if f, ok := pendingMut[label]; ok && op.Done() {
+				f()
+				delete(pendingMut, label)
+				afterTransition()
+			}
+		}
 		// C08: releases
 		for _, vr := range m.values {
 			if vr.hasRel && vr.expected && vr.relCount != 1 {
@@ -494,7 +506,9 @@ func body(c *sched.Ctl, cs Case, v *ev.Verdict) {
 			}
 		}
 		// a wanted resolution must be under way
-		if m.ctxID != 0 && m.liveRefs() > 0 && !m.resolved {
+		// (a root context cancelled from outside is a dead context: whether resolution is attempted
+		// under it is not decided by the property)
+		if m.ctxID != 0 && !rootDead[m.ctxID] && m.liveRefs() > 0 && !m.resolved {
 			inflight := false
 			for _, ci := range calls {
 				if !ci.returned {
@@ -658,6 +672,20 @@ func body(c *sched.Ctl, cs Case, v *ev.Verdict) {
 					setCtxDeviations++ // documented, but not part of C08-C10: counted only
 				}
 			})
+		case "cancelroot":
+			// the owner cancels the container's current root context from outside (no SetContext):
+			// the RefCount keeps its state; only contexts derived from it are cancelled
+			hm.Lock()
+			cid := m.ctxID
+			hm.Unlock()
+			if cid == 0 || cancels[cid] == nil {
+				return false
+			}
+			rootCancelled = true
+			hm.Lock()
+			rootDead[cid] = true
+			hm.Unlock()
+			cancels[cid]()
 		case "finish":
 			hm.Lock()
 			var el []*callInst
@@ -702,7 +730,7 @@ func body(c *sched.Ctl, cs Case, v *ev.Verdict) {
 				m.Released(ci.tok)
 			}
 			hm.Unlock()
-			c.Go(vl, func() { ci.released() })
+			invOps[vl] = c.Go(vl, func() { ci.released() })
 		case "consumer":
 			hm.Lock()
 			cn := &consumer{id: len(conss), kind: op.Kind, label: fmt.Sprintf("c%02d", i), withRel: op.Rel}
@@ -1043,6 +1071,9 @@ func body(c *sched.Ctl, cs Case, v *ev.Verdict) {
 	}
 	if invalWhileHeld {
 		v.Class("invalidation-while-consumer-holds-reference")
+	}
+	if rootCancelled {
+		v.Class("root-context-cancelled-from-outside")
 	}
 	if repeatedValue {
 		v.Class("resolver-returned-an-equal-value-again")
